@@ -116,6 +116,7 @@ func sfBody(cfg sfCfg) (*sfRun, func()) {
 				return h
 			}
 			g.callPool.Fingerprint = func(x any) uint64 { return uint64(x.(*call[int]).dups.Load()) + 7 }
+			g.callPool.Sched = true
 		})
 		for ti, sc := range cfg.scripts {
 			ti, sc := ti, sc
